@@ -5,6 +5,7 @@ import LuaHelper.Driver.LexOps
 import LuaHelper.Driver.ParseOps
 import LuaHelper.Driver.GrammarOps
 import LuaHelper.Driver.ScopeOps
+import LuaHelper.Driver.HovOps
 open LuaHelper
 
 def dispatch (cmd : String) (args : List String) : String :=
@@ -24,6 +25,9 @@ def dispatch (cmd : String) (args : List String) : String :=
   | some r => r
   | none =>
   match ScopeOps.handle cmd args with
+  | some r => r
+  | none =>
+  match HovOps.handle cmd args with
   | some r => r
   | none => "bad-op"
 
